@@ -91,3 +91,30 @@ func VerifT2ChosenPath(cmds []GlyphOp, skip int) []VerifT2Edge {
 func VerifT2EncodeCharString(g *Glyph, defaultWidth, nominalWidth float64) ([]byte, error) {
 	return g.encodeCharString(defaultWidth, nominalWidth)
 }
+
+// VerifT2EdgesRange returns the edges proposed at index from for the sub-path
+// encodeArgs(cmds)[lo:hi] (a maximal run of lineto/curveto commands, exactly
+// what encodeSubPath hands to the shortest-path search).
+func VerifT2EdgesRange(cmds []GlyphOp, lo, hi, from int) []VerifT2Edge {
+	enc := encoder(encodeArgs(cmds)[lo:hi])
+	var res []VerifT2Edge
+	for _, e := range enc.AppendEdges(nil, from) {
+		res = append(res, VerifT2Edge{Code: e.code, To: e.to})
+	}
+	return res
+}
+
+// VerifT2ChosenPathRange returns the edges chosen by the shortest-path search
+// for the sub-path encodeArgs(cmds)[lo:hi].
+func VerifT2ChosenPathRange(cmds []GlyphOp, lo, hi int) []VerifT2Edge {
+	enc := encoder(encodeArgs(cmds)[lo:hi])
+	ee, err := dijkstra.ShortestPath[int, edge, int](enc, 0, len(enc))
+	if err != nil {
+		panic(err)
+	}
+	var res []VerifT2Edge
+	for _, e := range ee {
+		res = append(res, VerifT2Edge{Code: e.code, To: e.to})
+	}
+	return res
+}
